@@ -787,8 +787,47 @@ def _add_flows_checks(rng, tier):
                      "the real AddFlowsAction handler to an initialised state; flows the parser rejects are skipped" % len(kernels[::step]))
 
 
+def _recompile_checks(rng, tier):
+    """Colang 2.x: the SAME parsed flows compiled a second time (a second runtime / LLMRails built from one RailsConfig object)"""
+    from nemoguardrails.colang import parse_colang_file
+    from nemoguardrails.colang.v2_x.runtime.flows import State
+    from nemoguardrails.colang.v2_x.runtime.runtime import create_flow_configs_from_flow_list
+    from nemoguardrails.colang.v2_x.runtime.statemachine import initialize_state
+    rec = _Rec("expand_elements / initialize_flow: the same parsed flows compiled twice (2.x)", V2_FILE,
+               V2_CLAUSE + " - also in a second compilation of the same parsed flows (two runtimes built from one configuration object)")
+    kernels = [k for kind, k in _v2_kernels() if kind != "stmt"]
+    step = 1 if tier == "thorough" else max(1, len(kernels) // 60)
+    for i, k in enumerate(kernels[::step]):
+        src = "flow main\n" + "\n".join("  " + l for l in ["match Start()"] + k) + "\n"
+        try:
+            with _quiet():
+                flows = parse_colang_file(filename="", content=src, include_source_mapping=True, version="2.x")["flows"]
+        except Exception:
+            rec.rejected += 1
+            continue
+        for round_ in range(2):
+            try:
+                with _quiet():
+                    cfgs = create_flow_configs_from_flow_list(flows)
+                    st = State(flow_states={}, flow_configs=cfgs)
+                    initialize_state(st)
+            except Exception:
+                rec.rejected += 1
+                break
+            rec.n += 1
+            rec.seen.add((src, round_))
+            for fid, fc in st.flow_configs.items():
+                probs = _v2_problems(fc.elements, fc.element_labels, _count_loop_jumps(fc.elements))
+                if probs:
+                    rec.fail("compilation #%d of the same parsed flows, flow `%s`:\n%s" % (round_ + 1, fid, src), "; ".join(probs[:4]))
+    yield rec.record("%d of the enumerated 2.x kernels, each parsed once and compiled twice (create_flow_configs_from_flow_list + "
+                     "initialize_state on a fresh State each time)" % len(kernels[::step]))
+
+
 def native_checks(rng, tier):
     for rec in _native_checks_compilers(rng, tier):
+        yield rec
+    for rec in _recompile_checks(rng, tier):
         yield rec
     for rec in _load_checks(rng, tier):
         yield rec
